@@ -26,6 +26,77 @@ def writer_method_for(P, D, cls, wcls):
     return wcls.find_method('%s%s' % (prefix, name)), '%s%s' % (prefix, name)
 
 
+def skip_rule(P, D, rep, rid, dw, wcls):
+    """Abstractly run the DOM writer's per-section function on each content section class with (a) non-empty
+    content of unknown value and (b) each empty value: (a) must call the streaming writer's write_<name> with
+    that very content on every path, (b) must not call the streaming writer."""
+    from sa.values import ADict, AObj, Unk
+    cont = [c for c in SECTION_CLASSES if c not in CONTAINER]
+    wfuncs = [m for n, m in wcls.methods.items() if n.startswith(('write_', 'new_'))]
+    for cname in cont:
+        cls = D.classes[cname]
+        sname = P.fold_class_attr(cls, 'section_name')
+        getter = None
+        for c in cls.repo_mro():
+            if 'content' in c.props and c.props['content'].get('get') is not None:
+                getter = c.props['content']['get']
+                break
+        if getter is None:
+            raise AnalysisError('content property of %s not found (anchor vanished)' % cname)
+        cases = [('non-empty', None)] + [('empty %r' % (v,), v) for v in (None, b'', '', {})]
+        for label, const in cases:
+            I = Interp(P)
+            calls = []
+            holder = {}
+
+            def rec(I_, fi_, args, kwargs, node, calls=calls):
+                calls.append((fi_.name, list(args), dict(kwargs)))
+                return None
+            for m in wfuncs:
+                I.stubs[m.qualname] = rec
+            I.stubs[getter.qualname] = lambda I_, fi_, args, kwargs, node: holder['content']
+            npaths = 0
+
+            def thunk():
+                del calls[:]
+                objs = D.build_tree(I)
+                o = objs[cname]
+                if const is None:
+                    u = Unk('content', taint=['ARG'])
+                    u.facts.add('truthy')
+                    holder['content'] = u
+                else:
+                    holder['content'] = ADict({}, name='content') if isinstance(const, dict) else const
+                w = I.instantiate(dw, [], {}, None)
+                sw = AObj(wcls, 'streaming-writer')
+                I.frames = []
+                entry = dw.find_method('_write_section')
+                if entry is None:
+                    raise AnalysisError('DiffXDOMWriter._write_section not found (anchor vanished)')
+                I.call_function(entry, [w, o, sw], {}, None, self_cls=dw)
+                return list(calls)
+            for path in I.explore(thunk):
+                npaths += 1
+                if npaths > 2000:
+                    raise AnalysisError('too many paths in the DOM writer for %s' % cname)
+                if path.outcome != 'return':
+                    continue
+                got = path.value
+                if const is None:
+                    ok = len(got) == 1 and got[0][0] == 'write_%s' % sname and got[0][1][1:2] == [holder['content']]
+                    if ok:
+                        rep.ok(rid, '%s: non-empty content is passed to write_%s' % (cname, sname))
+                    else:
+                        rep.violation(rid, 'skip-condition:%s' % cname, dw.module.relpath,
+                                      'a %s with non-empty content leads to streaming-writer calls %s (expected exactly one write_%s '
+                                      'with the content)' % (cname, [g[0] for g in got], sname), path=[dw.name])
+                else:
+                    if not got:
+                        rep.ok(rid, '%s: %s is skipped' % (cname, label))
+                    else:
+                        rep.info('%s with %s content is written (calls %s)' % (cname, label, [g[0] for g in got]))
+
+
 def reemit_rule(P, D, rep, rid, dw, remap):
     from sa.values import ADict, Unk
     go = dw.find_method('_get_options')
@@ -202,18 +273,17 @@ def run(P, rep, tier):
                     and isinstance(n.args[0], ast.Constant):
                 popped.add(n.args[0].value)
             if isinstance(n, ast.Delete):
-                popped.add(norm(n))
+                for t in n.targets:
+                    if isinstance(t, ast.Subscript) and isinstance(t.slice, ast.Constant):
+                        popped.add(t.slice.value)
+                    elif isinstance(t, ast.Subscript):
+                        popped.add(norm(n))
     if popped == {'length'}:
         rep.ok(r5, 'dom/reader.py drops %s' % sorted(popped))
     else:
         rep.violation(r5, 'dropped:%s' % ','.join(sorted(map(str, popped))), dr.module.relpath,
                       'the DOM reader removes %s from the options it stores (only "length" is derived data)' % sorted(map(str, popped)))
-    wc = dw.find_method('_write_content_section')
-    skips = [norm(n.test) for n in walk_no_nested(wc.node) if isinstance(n, ast.If)] if wc else []
-    if wc is not None and len(skips) == 1 and skips[0] in ('content',):
-        rep.ok(r5, 'DOM writer skips a content section only when its content is empty')
-    elif wc is not None:
-        rep.violation(r5, 'skip-condition', wc.loc(), 'content sections are skipped on %s (expected: only empty content)' % skips)
+    skip_rule(P, D, rep, r5, dw, wcls)
 
     # ---- R6 choice sets ------------------------------------------------------------------------------
     r6 = rep.rule('C05-R6', 'choice sets agree: descriptors, streaming-writer validation, options.py', reference=5)
